@@ -191,7 +191,7 @@ func init() {
 			"a failing schedule is replayed and must reproduce identically before it is reported",
 		},
 		Bounds: map[string]string{
-			"quick":    "drivers: 51 shared-function pairs (one per node/comparator/logical/function kind), 64 Parse||Parse pairs, 48 Parse||call, 16 three-thread, 8 two-functions-one-document, 10 two-operations-per-thread; all schedules with <=1 deviation (preemption or non-default pool answer) at every scheduling point, and <=2 deviations at coarse points (lock/pool operations, public API, parser phases, every retrieve/compute method)",
+			"quick":    "drivers: 51 shared-function pairs (one per node/comparator/logical/function kind; outcome-flipping documents) and 12 more with two succeeding documents of different sizes, 64 Parse||Parse pairs, 48 Parse||call, 16 three-thread, 8 two-functions-one-document, 10 two-operations-per-thread; all schedules with <=1 deviation (preemption or non-default pool answer) at every scheduling point, and <=2 deviations at coarse points (lock/pool operations, public API, parser phases, every retrieve/compute method)",
 			"thorough": "144 Parse||Parse pairs; two-thread drivers: <=2 deviations at every point and <=3 at coarse points; three-thread drivers: <=1 at every point, <=3 at coarse points",
 		},
 		New:   newC06,
